@@ -840,7 +840,7 @@ func c25Run(c *core.Ctx, raw json.RawMessage) {
 		}
 		return true
 	}
-	delivered := s.RunUntil(firstMarked, 120*time.Second)
+	delivered := s.RunUntil(firstMarked, c25Wait)
 	s.RunUntil(allMarked, 10*time.Second+time.Duration(sc.BatchDelay)*time.Millisecond)
 	if s.Capped {
 		c.Res.Verdict = core.Capped
@@ -949,13 +949,13 @@ func c25Run(c *core.Ctx, raw json.RawMessage) {
 			case !later && len(appliedBy[k]) < 3:
 				// some node never executed this entry (it received the result inside a
 				// snapshot), so its CDC service never saw the change
-				f = finding{"lost-change-not-captured-everywhere", fmt.Sprintf("log index %d changed rows [%s]; no delivery labelled %d contains them (waited %v simulated after the last fault); only %s applied this entry from the log, the other node(s) received it inside a snapshot", k, cdcIdentsOf(g.Events), k, 120*time.Second, c25Nodes(appliedBy[k]))}
+				f = finding{"lost-change-not-captured-everywhere", fmt.Sprintf("log index %d changed rows [%s]; no delivery labelled %d contains them (waited %v simulated after the last fault); only %s applied this entry from the log, the other node(s) received it inside a snapshot", k, cdcIdentsOf(g.Events), k, c25Wait, c25Nodes(appliedBy[k]))}
 			case elsewhere != "" && !later:
 				f = finding{"mislabelled-index", fmt.Sprintf("log index %d changed rows [%s]; they were never delivered under index %d, only as %s", k, cdcIdentsOf(g.Events), k, elsewhere)}
 			case elsewhere != "":
 				f = finding{"mislabelled-later-commit", fmt.Sprintf("log index %d, %s, changed rows [%s]; they were never delivered under index %d, only as %s", k, pos, cdcIdentsOf(g.Events), k, elsewhere)}
 			case !later:
-				f = finding{"lost-change", fmt.Sprintf("log index %d changed rows [%s]; no delivery contains them (waited %v simulated after the last fault; %d deliveries in total, indices seen: %s)", k, cdcIdentsOf(g.Events), 120*time.Second, len(recs), c25Indices(seenIdx))}
+				f = finding{"lost-change", fmt.Sprintf("log index %d changed rows [%s]; no delivery contains them (waited %v simulated after the last fault; %d deliveries in total, indices seen: %s)", k, cdcIdentsOf(g.Events), c25Wait, len(recs), c25Indices(seenIdx))}
 			default:
 				f = finding{"lost-later-commit", fmt.Sprintf("log index %d, %s, changed rows [%s]; no delivery contains them (%d deliveries, indices seen: %s)", k, pos, cdcIdentsOf(g.Events), len(recs), c25Indices(seenIdx))}
 			}
@@ -1072,3 +1072,8 @@ func c25Indices(m map[uint64]int) string {
 func init() {
 	core.Register(&core.Prop{ID: "C25", Bubble: true, Gen: c25Gen, Run: c25Run})
 }
+
+// c25Wait is how long (simulated) the oracle waits, after the last fault has
+// been lifted and the cluster has settled, for every change to arrive. Retry
+// back-off is at most 2 s, the high-watermark interval at most 2 s.
+const c25Wait = 60 * time.Second
